@@ -339,6 +339,25 @@ def check(ctx, rep, rule):
                                 tb_ = _c08.closure_table(F, d_[3]['closure'], [m_.group(1)[0]])
                                 if tb_ and all(v_[0] == 1 for v_ in tb_.values()):
                                     removed.add(b)
+                if n == "lexer::Tokenizer::<'a>::bump" and t.get('target') is not None:
+                    # `self.bump()?` / `match self.bump() { None => return .. }`: the loop only goes on with a character in hand
+                    d_ = t['dest']['local']
+                    for sb in sorted(fn.reachable(t['target'], stop={header}) & set(body)):
+                        tt = fn.term(sb)
+                        if tt['k'] != 'switch':
+                            continue
+                        c_ = sym(fn, tt['op'])
+                        if c_[0] == 'discr' and "Tokenizer::<'a>::bump" in str(c_[1]) and fn.dominates(b, sb):
+                            # which discriminant values stay inside the loop
+                            stay = [v_ for v_, tb in tt['targets'] if tb in body and header in fn.reachable(tb)]
+                            other_stays = tt['otherwise'] in body and header in fn.reachable(tt['otherwise'])
+                            is_cf = 'ControlFlow' in str(c_[2])
+                            none_val = 1 if is_cf else 0          # ControlFlow::Break = 1, Option::None = 0
+                            explicit = {v_ for v_, _ in tt['targets']}
+                            none_stays = (none_val in stay) or (none_val not in explicit and other_stays)
+                            if not none_stays:
+                                removed.add(b)
+                            break
                 if n == "lexer::Tokenizer::<'a>::bump":
                     # progress when the tokenizer is established not to be at the end
                     for f in facts_at(fn, b):
@@ -395,8 +414,12 @@ def check(ctx, rep, rule):
                             lazy.setdefault(c, set()).add(callee)
             cyc = find_cycle(lazy)
             rep.ob(cyc is None, rule, 'parser', 'recursion ' + name,
-                   'every recursive cycle consumes at least one token (depth bounded by input length)' if cyc is None
+                   'every recursive cycle consumes at least one token (the recursion ends)' if cyc is None
                    else 'recursive cycle without consumption: %s' % ' -> '.join(cyc), 'src/parser.rs')
+            # ... but its depth follows the nesting of the input, and nothing limits it
+            rep.bad(rule, 'recursion', name,
+                    'recursion {%s}: one level of the host stack per level of nesting in the program text (no depth limit): a deeply nested '
+                    'program (100000 opening parentheses) exhausts the host stack' % members, None)
         elif all('lexer::' in c for c in comp):
             fn = F.fns[comp[0]]
             ok = True
@@ -407,6 +430,10 @@ def check(ctx, rep, rule):
                     if callee_name(t) in comp and b in f2.reachable(0, stop=bumps):
                         ok = False
             rep.ob(ok, rule, 'lexer', 'recursion ' + name, 'the tokenizer re-enters itself only after consuming a character', 'src/lexer.rs')
+            # it ends, but every re-entry costs a host stack frame: the depth follows the length of a run of skipped characters
+            rep.bad(rule, 'recursion', name,
+                    'recursion {%s} in the tokenizer: one level of the host stack per skipped character / comment, so a few million '
+                    'consecutive blanks exhaust the host stack (skip in a loop instead)' % members, 'src/lexer.rs')
         else:
             rep.bad(rule, 'recursion', name,
                     'recursion {%s} over a data structure whose depth follows the nesting of the input (no depth limit): a deeply nested '
